@@ -982,6 +982,11 @@ class Run:
             # of a String), bounds-checked like any other buffer
             ini = strip(v.get('init') or {})
             args = ini.get('a', []) if ini.get('k') == 'construct' else None
+            if tv.get('rec') == 'asl::String' and (v.get('init') is None or (args is not None and len(args) == 0)):
+                self.bufs[('O', v['id'])] = [0]           # default-constructed: the empty string
+                self.objlen[v['id']] = 0
+                self.strobjs.add(v['id'])
+                return
             if args is not None and 1 <= len(args) <= 2 and all(T(self.f, strip_lv(a).get('t')).get('int') for a in args):
                 n_ = self.val(args[-1])
                 if isinstance(n_, int) and 0 <= n_ < (1 << 20):
